@@ -93,6 +93,8 @@ def run(tier, seed):
             mo, me, mx = r.text(), r.num(), r.num()
             rp = {'op': 'cli', 'argv': clirun.cfg_argv(cfg) + [flag, arg if kind != 'srcex' else '<file:%r>' % val], 'files': [(n, b.hex()) for n, b in files]}
             hit = False
+            if kind == 'src' and len(arg) <= 32 and sx != 0:
+                ck.fail('--src with a string of at most 32 characters (the width of the reference code) ends with an error instead of a result', rp | {'exit': sx, 'stderr': se[-200:]}, 'src_length')
             if sx == 0:
                 if kind in ('plid', 'src', 'srcex'):
                     try:
